@@ -17,9 +17,36 @@ def _tables_nontrivial(q, a):
     return a.startswith('ok ')
 
 
+def _ok_nontrivial(q, a):
+    return a.startswith('ok')
+
+
+def _cell_nontrivial(q, a):
+    # images with at least one shell, or any other successful cell operation on a non-right angle
+    t = q.split(' ')
+    if t[1] == 'images':
+        return a.startswith('ok') and int(a.split(' ')[1]) >= 8
+    return a.startswith('ok')
+
+
+def _site_nontrivial(q, a):
+    # a site of a group of order >= 2
+    t = q.split(' ')
+    return a.startswith('ok') and len(t) > 2 and t[2].isdigit() and int(t[2]) >= 2
+
+
+def _opt_nontrivial(q, a):
+    # a run with at least a handful of score calls
+    t = a.split(' ')
+    return t[0] == 'ok' and int(t[1]) >= 5
+
+
 NONTRIVIAL = {
     'parse': _parse_nontrivial,
     'tables': _tables_nontrivial,
+    'cell': _cell_nontrivial,
+    'site': _site_nontrivial,
+    'opt': _opt_nontrivial,
 }
 
 
@@ -27,9 +54,16 @@ def _cls2(q, a):
     return ' '.join(a.split(' ')[:2]) if a.startswith('err') else a.split(' ')[0]
 
 
+def _cls_op(q, a):
+    t = q.split(' ')
+    return (t[1] if len(t) > 1 else '?') + ':' + (a.split(' ')[0] if a else '')
+
+
 CLASSIFY = {
     'parse': _cls2,
     'tables': _cls2,
+    'mat': _cls_op, 'wrap': _cls_op, 'cell': _cls_op, 'site': _cls_op, 'rng': _cls_op,
+    'basis': _cls_op, 'opt': _cls_op,
 }
 
 
@@ -53,6 +87,30 @@ SOURCE_COMMITS = []
 NOT_CLAIMED = {}
 
 PROPS = {
+    'C14': {
+        'level_text': 'Full proof over the reals: the Cartesian map is x*A + y*B with A=(a,0), B=(b cos t, b sin t); periodic_images of a placement within k shells is exactly the list of translates by n*A+m*B over the index set {|n|,|m|<=k} (minus (0,0) unless asked), each once, in order, orientation unchanged; area = |A x B|; corners/centre. The model functions are the same Lean terms that run at Float against the crate.',
+        'level_note': 'Trusted: Lean kernel + 3 standard axioms; model of src/cell.rs tied by the bit-exact cell/mat request families (cells injected through the crate Deserialize); f64 rounding outside the theorems (statements are exact over R; the search evaluates them on the real outputs to 1e-12).',
+        'technique': 'Lean 4 proof over R of a scalar-polymorphic executable model + bit-exact differential correspondence',
+        'theorems': ['Proofs.C14'],
+        'families': [('cell', 4000, 80000), ('mat', 2000, 40000)],
+        'search': (6, 90),
+        'rule': ('cell: cells over the optimiser box (40% on faces), 4 families, ops cart/area/ab/center/corners/iso/dof/fromfamily/images with shells -1..6; '
+                 'non-trivial = images reply with >= 8 images or any ok reply; distinct by request text; search: linear map, area and image-set oracle on real Cell2 methods'),
+        'explanation': 'theorems quantify over all cells, placements and shell counts; correspondence pins the model to Cell2 bit-for-bit',
+        'assumptions': ['f64 rounding is not modelled'],
+    },
+    'C15': {
+        'level_text': 'Full proof over the reals: the wrap maps every coordinate into [-1/2,1/2), changes it by an integer, is 1-periodic and the identity on the cell; a site yields exactly one placement per operation with linear part L_k*Rot(theta), position in the canonical cell and congruent to g_k(x,y) mod Z^2; lattice-shifted coordinates / orientations +2*pi*j give the same placements (integrality of every table operation decided in the kernel on the regenerated tables). Wrap constants (period 1, offset -1/2) are regenerated from the source and pinned by a decidable obligation.',
+        'level_note': 'Trusted: Lean kernel + 3 standard axioms; model of site.rs/transform.rs tied by bit-exact wrap/site/mat families incl. an exhaustive edge set (+-1/2, +-1/2 +- ulp, +-0, tiny, huge) for the double fmod; f64 rounding outside the theorems.',
+        'technique': 'Lean 4 proof over R (floor/fract arithmetic) + kernel decision on generated tables + bit-exact differential correspondence',
+        'theorems': ['Proofs.C15'],
+        'families': [('wrap', 3000, 60000), ('site', 4000, 80000), ('mat', 1000, 20000)],
+        'search': (6, 90),
+        'rule': ('wrap: exhaustive edge set then random coordinates; site: all 7 groups, coordinates on/near the bounds 30%, lattice-shifted coordinates; '
+                 'non-trivial = site of a group of order >= 2 (site), any ok reply (wrap); distinct by request text; search: count / canonical cell / congruence / linear part / lattice-invariance oracle on real positions()'),
+        'explanation': 'for-all-reals statements proved; edge behaviour of the float wrap covered by the exhaustive edge set in the wrap family',
+        'assumptions': ['f64 rounding is not modelled (range claim checked exhaustively on the edge set at Float)'],
+    },
     'C16': {
         'level_text': 'Full proof. The property quantifies over a finite space (7 tables, <=4 operations, <=16 products each); it is decided completely by the Lean kernel (decide +kernel at exact Rat) on tables regenerated from the current text of src/wallpaper.rs and parsed by the model parser, against the ITA reference; lifted to explicitly quantified theorems.',
         'level_note': 'Trusted: Lean kernel + 3 standard axioms; reference tables typed from International Tables A; translator pvtx.py (validated by the tables family: generated tables vs get_wallpaper_group + WyckoffSite::new on the real crate); model parser tied to from_operations by the parse family (bit-exact).',
